@@ -51,6 +51,7 @@ type Exec struct {
 	stats      Stats
 	nextObj    int
 	sentinels  map[string]int
+	pools      map[int]int
 	curDepth   int
 	lastNow    *Term
 	deadline   time.Time
@@ -71,7 +72,8 @@ type Exec struct {
 }
 
 type fnInfo struct {
-	order []int // order[block.Index] = priority (RPO-like, loop exits after bodies)
+	order   []int // order[block.Index] = priority (RPO-like, loop exits after bodies)
+	loopMax []int // for a loop header: the largest order of any block of its loop body (else -1)
 }
 
 func NewExec(prog *ssa.Program, opts Options) *Exec {
@@ -169,6 +171,26 @@ func (e *Exec) info(fn *ssa.Function) *fnInfo {
 	for k, bi := range post {
 		fi.order[bi] = len(post) - 1 - k
 	}
+	fi.loopMax = make([]int, n)
+	for i := range fi.loopMax {
+		fi.loopMax[i] = -1
+	}
+	for _, b := range fn.Blocks {
+		for _, s := range b.Succs {
+			if s.Dominates(b) { // back edge b -> s: s is a header
+				for _, l := range loops {
+					if !l.body[s.Index] || !l.body[b.Index] {
+						continue
+					}
+					for bi := range l.body {
+						if fi.order[bi] > fi.loopMax[s.Index] && fi.order[bi] < n {
+							fi.loopMax[s.Index] = fi.order[bi]
+						}
+					}
+				}
+			}
+		}
+	}
 	e.infos[fn] = fi
 	return fi
 }
@@ -176,22 +198,33 @@ func (e *Exec) info(fn *ssa.Function) *fnInfo {
 // --- running a frame ---------------------------------------------------------------
 
 type item struct {
-	st  *State
-	fr  *Frame
-	blk *ssa.BasicBlock
-	idx int
+	st   *State
+	fr   *Frame
+	blk  *ssa.BasicBlock
+	idx  int
+	back bool // arrived at a loop header over a back edge: waits until the rest of the loop body has caught up
+}
+
+// prio orders the work list: reverse post-order, except that a state that has just come round a loop waits at the
+// header until every state still inside the loop body has arrived there too (so they can be merged per iteration).
+func (fi *fnInfo) prio(it *item) int {
+	if it.back && fi.loopMax[it.blk.Index] >= 0 {
+		return 2*fi.loopMax[it.blk.Index] + 1
+	}
+	return 2 * fi.order[it.blk.Index]
 }
 
 func (e *Exec) runFrame(st *State, fr *Frame) []PathRes {
 	fi := e.info(fr.fn)
-	work := []*item{{st, fr, fr.fn.Blocks[0], 0}}
+	work := []*item{{st: st, fr: fr, blk: fr.fn.Blocks[0]}}
 	var done []PathRes
 	for len(work) > 0 {
 		// pick minimal key
 		best := 0
 		for i := 1; i < len(work); i++ {
 			a, b := work[i], work[best]
-			if fi.order[a.blk.Index] < fi.order[b.blk.Index] || (a.blk == b.blk && a.idx < b.idx) {
+			pa, pb := fi.prio(a), fi.prio(b)
+			if pa < pb || (pa == pb && a.blk == b.blk && a.idx < b.idx) || (pa == pb && a.blk != b.blk && fi.order[a.blk.Index] < fi.order[b.blk.Index]) {
 				best = i
 			}
 		}
@@ -230,7 +263,7 @@ func (e *Exec) mergeItems(group []*item) []*item {
 			if !ok {
 				continue
 			}
-			out[i] = &item{ms, mf, o.blk, o.idx}
+			out[i] = &item{st: ms, fr: mf, blk: o.blk, idx: o.idx, back: o.back}
 			merged = true
 			break
 		}
@@ -291,7 +324,7 @@ func (e *Exec) execBlock(it *item) (items []*item, done []PathRes) {
 			if o.panicked {
 				done = append(done, PathRes{st: o.st, panicked: true, fr: o.fr})
 			} else {
-				items = append(items, &item{o.st, o.fr, blk, i + 1})
+				items = append(items, &item{st: o.st, fr: o.fr, blk: blk, idx: i + 1})
 			}
 		}
 		return
@@ -330,7 +363,7 @@ func (e *Exec) enter(st *State, fr *Frame, pred, succ *ssa.BasicBlock) []*item {
 	for k, ph := range phis {
 		fr.locals[ph] = vals[k]
 	}
-	return []*item{{st, fr, succ, len(phis)}}
+	return []*item{{st: st, fr: fr, blk: succ, idx: len(phis), back: succ.Dominates(pred)}}
 }
 
 func (e *Exec) feasible(st *State, extra *Term) bool {
@@ -663,7 +696,7 @@ func (e *Exec) runFrom(st *State, fr *Frame, blk *ssa.BasicBlock) []PathRes {
 	// run a frame starting at an arbitrary block (used for recover blocks)
 	fi := e.info(fr.fn)
 	_ = fi
-	work := []*item{{st, fr, blk, 0}}
+	work := []*item{{st: st, fr: fr, blk: blk}}
 	var done []PathRes
 	for len(work) > 0 {
 		it := work[0]
